@@ -139,7 +139,18 @@ def run(prog, rep, tier, only=None):
     E.gc_roots.update((c_old, c_new))
     somes = []
 
+    wraps = []
+
     def hook(E_, st, frame, bb, idx, stmt, v):
+        rv = stmt['rv']
+        if frame.depth == 0 and rv['k'] == 'bin' and rv['op'].startswith('Sub') and rv['r']['k'] == 'const' and v[0] == 'F' \
+                and v[4] is not None and v[4][0] == 'Sub' and v[4][2] == ('c', 360.0):
+            # N7: a coordinate is brought back by -360 only on a path that tested *that* coordinate
+            t = v[4][1]
+            own = any((f[0] in ('Ge', 'Gt') and f[1] == t and f[2][0] == 'c' and f[2][1] >= 180.0)
+                      or (f[0] in ('Le', 'Lt') and f[2] == t and f[1][0] == 'c' and f[1][1] >= 180.0) for f in st.facts)
+            wraps.append((own, stmt.get('sp'), A.show_term(t)[:80]))
+            return
         if frame.depth != 0 or stmt['rv']['k'] != 'agg' or stmt['rv']['ak']['k'] != 'adt':
             return
         ty = prog.types[stmt['rv']['ak']['ty']]
@@ -222,6 +233,13 @@ def run(prog, rep, tier, only=None):
                   sample={'latitude_interval': [lat[1], lat[2]], 'nan': lat[3]} if lat[0] == 'F' else None)
     rep.check(seen_pairs == {('Even', 'Odd'), ('Odd', 'Even')}, 'N2-opposite-parity', 'airborne_position#both-orders', f_ap['file'],
               'positions are produced for parity orders %s; expected both (Even, Odd) and (Odd, Even)' % sorted(seen_pairs))
+    # N7 (after seed C04-s11): every `x - 360` wrap in airborne_position is guarded by a test of x itself
+    rep.floor('-360 wraps examined in airborne_position', len(wraps), 2)
+    for k_, sp in enumerate(sorted(set(w[1] for w in wraps), key=lambda x: (len(str(x)), str(x)))):
+        ws = [w for w in wraps if w[1] == sp]
+        rep.check(all(w[0] for w in ws), 'N7-own-wrap', 'airborne_position#wrap#%d' % k_, '%s:%s' % (f_ap['file'], sp),
+                  'a coordinate is reduced by 360 on a path that did not test that coordinate against a bound >= 180 (it may be below 270: the result '
+                  'leaves [-90, 90] and the pair is rejected although both reports lie in one zone band)', sample={'wrap_states': len(ws)})
     n5_longitude(prog, rep, f_ap, mkmsg, c_old, c_new)
 
 
@@ -243,8 +261,17 @@ def n5_longitude(prog, rep, f_ap, mkmsg, c_old, c_new):
     f_nl = util.find_fn(prog, 'decode::cpr::nl', crate='rs1090')
     used = [0]
     lons = []
+    mods = set()
     for k_nl in range(1, 60):
-        _n5_pass(prog, f_ap, f_mod, f_nl, mkmsg, c_old, c_new, k_nl, used, lons)
+        _n5_pass(prog, f_ap, f_mod, f_nl, mkmsg, c_old, c_new, k_nl, used, lons, mods)
+    # N6 (after seed C04-s10): the zone counts.  In the pass where every nl() call returns k, the constant divisors handed to
+    # modulo() are the latitude zone counts 60 / 59 and the longitude zone count max(k - i, 1), i = 0 (even latest) or 1 (odd)
+    bad6 = sorted((k_, d) for k_, d in mods if d not in (60, 59, max(k_, 1), max(k_ - 1, 1)))
+    rep.check(not bad6, 'N6-zone-count', 'airborne_position#modulo-divisors', f_ap['file'],
+              'with NL = %s the index is reduced modulo %s; the standard reduces modulo max(NL - i, 1) = %s (and the latitude index modulo 60 / 59)'
+              % (bad6[0][0] if bad6 else '', bad6[0][1] if bad6 else '', sorted({max(bad6[0][0], 1), max(bad6[0][0] - 1, 1)}) if bad6 else ''),
+              sample={'passes': 59, 'distinct (NL, divisor) pairs': len(mods), 'divisors at NL=1': sorted(d for k_, d in mods if k_ == 1)})
+    rep.floor('(NL, modulo divisor) pairs seen', len(mods), 59 * 2)
     rep.floor('positions built (longitude pass)', len(lons), 59)
     rep.floor('modulo calls summarised on integral arguments', used[0], 59)
     lo = min((x[1] for x, _, _ in lons if x[0] == 'F'), default=None)
@@ -255,7 +282,7 @@ def n5_longitude(prog, rep, f_ap, mkmsg, c_old, c_new):
               sample={'longitude interval over all NL and parities': [lo, hi], 'states': len(lons)})
 
 
-def _n5_pass(prog, f_ap, f_mod, f_nl, mkmsg, c_old, c_new, k_nl, used, lons):
+def _n5_pass(prog, f_ap, f_mod, f_nl, mkmsg, c_old, c_new, k_nl, used, lons, mods):
     # all nl() calls of a state that builds a position return the same value (rule N4): that value is k_nl here
     E = runner.make_engine(prog, K=16)
 
@@ -281,6 +308,8 @@ def _n5_pass(prog, f_ap, f_mod, f_nl, mkmsg, c_old, c_new, k_nl, used, lons):
                     continue
                 integral_a = a[4] is not None and a[4][0] in ('floor', 'itof') and not a[3] and abs(a[1]) < 2 ** 24 and abs(a[2]) < 2 ** 24
                 const_b = b[1] == b[2] and not b[3] and b[1] >= 1.0 and b[1] == int(b[1]) and b[1] < 2 ** 24
+                if const_b:
+                    mods.add((k_nl, int(b[1])))
                 if integral_a and const_b:
                     # a / b is exact or at least 1/b away from an integer: floor is exact, the result an integer of [0, b-1]
                     used[0] += 1
